@@ -184,6 +184,34 @@ def _is_sum(t, n, L):
 # keystream helpers
 
 
+def inplace_xor(fn, ev):
+    """`for (m, b) in K.iter_mut().zip(D.iter()) { *m ^= *b }`: returns [(K buffer term, D term)].
+    Recognised on the MIR: a store `*p = *p ^ x` in a loop whose `p` and `x` are the two components of the element of
+    zip(iter_mut(K), iter(D)), the store dominating the back edge (every element is updated)."""
+    out = []
+    cfg = fn.cfg
+    zips = [s for s in ev.sites.values() if s.callee[0] == "Iterator::zip" and len(s.args) == 2]
+    for src, h in cfg.back_edges():
+        body = cfg.natural_loop(src, h)
+        for b in body:
+            for st in fn.blocks[b]["stmts"]:
+                if st["k"] != "assign" or st["place"].get("p") != ["*"]:
+                    continue
+                rv = st["rv"]
+                if rv.get("bin") != "BitXor":
+                    continue
+                a = rv["a"].get("copy") or rv["a"].get("move") or {}
+                if a != st["place"] or not cfg.dominates(b, src):
+                    continue
+                for z in zips:
+                    l, r = B.peel(z.args[0]), B.peel(z.args[1])
+                    if l.op in ("call", "mutcall") and B.cname(l) == "slice::<impl [T]>::iter_mut":
+                        K = l.a[1][0] if l.op == "call" else l.a[2][0]
+                        D = r.a[1][0] if r.op == "call" and B.cname(r) in ("slice::<impl [T]>::iter", "IntoIterator::into_iter") else r
+                        out.append((K, D))
+    return out
+
+
 def check_xof_mask(ctx, rule, P, fn_key, key_param, data_param, hash_name, key_is_point):
     """mask helper = byte_xor(data, H(key)[|data|]) with H = Shake128 (XOF) or Sha256."""
     fn = ctx.need_fn(rule, fn_key, P)
@@ -193,6 +221,11 @@ def check_xof_mask(ctx, rule, P, fn_key, key_param, data_param, hash_name, key_i
     ret = strip_sites(ev.ret)
     x = [s for s in subterms(ret) if s.op == "call" and B.cname(s) == "helpers::byte_xor"]
     ok_xor = bool(x)
+    ipx = []
+    if not ok_xor:
+        # the same mask computed in place: the key-stream buffer is xor-ed with the data and returned
+        ipx = [(K, D) for K, D in inplace_xor(fn, ev) if any(t.op in ("call", "mutcall") and B.cname(t) in ("XofReader::read", "FixedOutput::finalize_fixed", "Digest::finalize") for t in subterms(K)) and any(t.op == "mutcall" and B.cname(t) == "slice::<impl [T]>::iter_mut" for t in subterms(ret))]
+        ok_xor = len(ipx) == 1
     upd = [s for s in ev.sites.values() if s.callee[0] in ("Update::update", "Digest::update")]
     fed = []
     for u in upd:
@@ -205,7 +238,7 @@ def check_xof_mask(ctx, rule, P, fn_key, key_param, data_param, hash_name, key_i
     dflt = [s for s in ev.sites.values() if s.callee[0] == "Default::default"]
     hty = dflt[0].callee[1][0] if dflt and dflt[0].callee[1] else ""
     ok_hash = hash_name in hty
-    data_in = ok_xor and any(s.op == "param" and s.a[1] == data_param for s in subterms(x[0].a[1][0])) if x else False
+    data_in = ok_xor and any(s.op == "param" and s.a[1] == data_param for s in subterms(x[0].a[1][0])) if x else (bool(ipx) and any(s.op == "param" and s.a[1] == data_param for s in subterms(ipx[0][1])))
     ctx.ob(rule, fn_key, ok_xor and ok_key and ok_hash and data_in, "%s = byte_xor(%s, %s(%s)): hasher=%s fed=%s" % (fn_key, data_param, hash_name, key_param, hty[:60], B.show_nf(fed)), where=where(fn), sample={"fed": B.show_nf(fed), "hasher": hty[:80]})
     if hash_name == "Shake128":
         # keystream length = |data|
@@ -353,11 +386,15 @@ def check_timeout(ctx, rule, P):
     # reject when elapsed > timeout (Gt/Ge true-edge rejects) or accept only when elapsed <= timeout (Le/Lt false-edge rejects)
     direction = (op in ("Gt", "Ge") and true_rejects and not false_rejects) or (op in ("Lt", "Le") and false_rejects and not true_rejects)
     ctx.ob(rule, "timeout/direction", sides_ok and direction, "timeout test `%s %s %s`: %s edge rejects (want: elapsed exceeding the timeout is rejected)" % (sx, op, sy, "true" if true_rejects else ("false" if false_rejects else "neither")), where=where(v, b), sample={"cmp": show(ds, 5)})
-    # units
-    conv = [B.cname(s) for s in subterms(x) if s.op == "call" and B.cname(s).startswith("Duration::as_")]
-    ctors = [B.cname(s) for s in subterms(x) if s.op == "call" and B.cname(s).startswith("Duration::from_")]
-    t_in = any(s.op == "call" and B.cname(s) == "Duration::from_millis" and B.peel(s.a[1][0]).op == "param" and B.peel(s.a[1][0]).a[1] == "t" for s in subterms(x))
-    epoch = any(s.op == "named" and s.a[0] == "UNIX_EPOCH" for s in subterms(x))
+    # units (conversions applied inside combinator closures such as `.map(|d| d.as_millis() as u64)` count)
+    xs = set(subterms(x))
+    for c_ in list(xs):
+        if c_.op == "agg" and c_.a[0][0] == "closure" and c_.a[0][1] in P.fns:
+            xs |= set(subterms(strip_sites(evaluate(P.fns[c_.a[0][1]]).ret)))
+    conv = sorted(B.cname(s) for s in xs if s.op == "call" and B.cname(s).startswith("Duration::as_"))
+    ctors = sorted(B.cname(s) for s in xs if s.op == "call" and B.cname(s).startswith("Duration::from_"))
+    t_in = any(s.op == "call" and B.cname(s) == "Duration::from_millis" and B.peel(s.a[1][0]).op == "param" and B.peel(s.a[1][0]).a[1] == "t" for s in xs)
+    epoch = any(s.op == "named" and s.a[0] == "UNIX_EPOCH" for s in xs)
     ctx.ob(rule, "timeout/units", conv == ["Duration::as_millis"] and ctors == ["Duration::from_millis"] and t_in and epoch, "elapsed = (now - (UNIX_EPOCH + from_millis(t))).as_millis(): conversions %s, constructors %s (the timeout parameter and the stored timestamp are milliseconds)" % (conv, ctors), where=where(v, b))
     # the branch is only on the Some arm; the None arm reaches verify without the clock
     some_ctx = [e for e in G.edge_conditions(ev, b) if G.variant_of_switch(P, v, e[0], e[1]) and G.variant_of_switch(P, v, e[0], e[1])[0] == "Option"]
